@@ -61,7 +61,7 @@ def tree_key():
     return _hash_files(files).hexdigest()[:24]
 
 
-E1_SOURCES = ['lin.py', 'values.py', 'facts.py', 'interp.py', 'models.py', 'spec.py', 'contracts.py', 'analyze.py', 'pp.py', 'pictures.py', 'lexer.py']
+E1_SOURCES = ['lin.py', 'values.py', 'facts.py', 'interp.py', 'models.py', 'spec.py', 'contracts.py', 'analyze.py', 'pp.py', 'pictures.py', 'lexer.py', 'kernel.py']
 
 
 def e1_key():
